@@ -212,6 +212,8 @@ def semC (bounded : Bool) : Sem where
   multiIndex vs _ := .str ((vs.map toStr).intersperse [28]).flatten
   print vs w := some (printVals vs w)
   setExit v w := { w with exit := toNum v }
+  nullV := .null
+  call _ _ _ _ := none
 
 /-! ## Flat encoding into opcode words (numbers from the generated opcode list; constants looked up in the real tables) -/
 
@@ -246,6 +248,7 @@ def Instr.opName : Instr → String
   | .plus => "UnaryPlus" | .boolean => "Boolean"
   | .jump _ => "Jump" | .jumpFalse _ => "JumpFalse" | .jumpTrue _ => "JumpTrue" | .jumpCmp op _ => op.jumpName
   | .next => "Next" | .exit => "Exit" | .exitStatus => "ExitStatus" | .print _ => "Print"
+  | .nulls _ => "Nulls" | .callUser _ _ _ => "CallUser" | .ret => "Return" | .retNull => "ReturnNull"
 
 structure Tables where
   opcodes : List String
@@ -270,6 +273,8 @@ def Instr.operands (t : Tables) : Instr → List Int
   | .indexMulti n | .concatMulti n => [n]
   | .jump off | .jumpFalse off | .jumpTrue off | .jumpCmp _ off => [off]
   | .print n => [n, 0]
+  | .nulls k => [k]
+  | .callUser f _ arrs => [(f : Int), (arrs.length : Int)] ++ arrs.flatMap fun a => [(match a.1 with | .loc => (1 : Int) | .global => 3), (a.2 : Int)]
   | _ => []
 
 def encode (t : Tables) (c : Code) : List Int :=
